@@ -214,7 +214,7 @@ func init() {
 	}
 	Register(&PropSpec{
 		ID: "C09", Level: "exploration",
-		Rule: "every entry point reachable by transaction (assets/delegation precompile methods incl. client-chain and token registration, operator, delegation and oracle messages, parameter updates) is driven with satisfiable and unsatisfiable inputs (unknown asset/chain/operator, amount 0 / position+1 / 2^64, frozen or opting-out operator, duplicate registration, malformed oracle info, wrong nonce/base block/decimal/source, unauthorised callers, replays; in a third of the runs the gateway is a forwarder CONTRACT and a fifth of its calls are made through a frame that reverts after the precompile returned) in states reached by the C01 workload with slashing and epoch ends; for every call that REPORTS failure (tx code != 0, VM error, or precompile success flag false) the byte-level dump of the assets, delegation, operator, dogfood, avs, oracle, reward and slash stores and the oracle's in-memory dump before and after must be equal (the submitting validator's oracle nonce excepted); non-trivial = >= 10 failures checked across >= 5 distinct entry points",
+		Rule: "every entry point reachable by transaction (assets/delegation precompile methods incl. client-chain and token registration, operator, delegation and oracle messages, parameter updates) is driven with satisfiable and unsatisfiable inputs (unknown asset/chain/operator, amount 0 / position+1 / 2^64, frozen or opting-out operator, duplicate registration, malformed oracle info, wrong nonce/base block/decimal/source, unauthorised callers, replays; in a third of the runs the gateway is a forwarder CONTRACT: a fifth of its calls are made through a frame that reverts after the precompile returned, an eighth through a STATICCALL frame, a DELEGATECALL frame or a NESTED frame (outer forwarder -> gateway forwarder that reverts after the precompile returned -> precompile, the outer frame returning normally); a tenth of the regular price reports travel in a two-message transaction of one validator whose second message is refused) in states reached by the C01 workload with slashing and epoch ends; for every call that REPORTS failure (tx code != 0, VM error, or precompile success flag false) the byte-level dump of the assets, delegation, operator, dogfood, avs, oracle, reward and slash stores and the oracle's in-memory dump before and after must be equal (the submitting validator's oracle nonce excepted); non-trivial = >= 10 failures checked across >= 5 distinct entry points",
 		Assumptions: append([]string{"only failures that real inputs produce are checked (no error injection inside keepers)", "block-level items (one undelegation / one AVS / one slash failing inside Begin/EndBlock) are covered only through the C03/C04 monitors' 'others still processed' checks, not here"}, ledgerAssumptions...),
 		QuickRuns:   500, ThoroughRuns: 8000,
 		GenConfig: cfgGen, GenPlan: c09Plan(false),
@@ -231,7 +231,7 @@ func init() {
 	Register(&PropSpec{
 		ID: "C10", Level: "exploration",
 		Rule: "entry point x caller identity: every gateway-only precompile method (deposit, withdraw, delegate, undelegate, associate, dissociate, client-chain and token registration/update) is called by the configured gateway and by another funded account with the same well-formed payload; price submissions by validators, former validators, outsiders and with garbage / foreign / missing signatures, without any signer info, or with another key's public key; operator messages signed by another account for the victim's address; parameter updates of dogfood, oracle, mint, fee-distribution and assets by a non-governance account on mainnet and testnet chain ids; issued at random points of C01/C12 histories so identities (validator set, gateway) are state-dependent; an unauthorised call must report rejection AND leave the restaking stores and the in-memory oracle state byte-identical; non-trivial = >= 8 unauthorised attempts across >= 4 entry points",
-		Assumptions: append([]string{"in a third of the runs the configured gateway is a forwarder contract (CALL), so the same account is authorised through the contract and unauthorised when it calls the precompile directly; DELEGATECALL / STATICCALL frames are not exercised", "AVS entry points are added with the C20 workload"}, ledgerAssumptions...),
+		Assumptions: append([]string{"in a third of the runs the configured gateway is a forwarder contract (CALL), so the same account is authorised through the contract and unauthorised when it calls the precompile directly; STATICCALL and DELEGATECALL frames of the gateway contract count as not-rightful calls (read-only frame; the precompile sees the ordinary account as caller); the operator-facing AVS precompile methods (registerOperatorToAVS, deregisterOperatorFromAVS, registerBLSPublicKey) are rightful only when the named operator signed the transaction", "AVS entry points are added with the C20 workload"}, ledgerAssumptions...),
 		QuickRuns:   500, ThoroughRuns: 8000,
 		GenConfig: func(p *PRNG, tier string) Config {
 			c := cfgGen(p, tier)
